@@ -172,7 +172,8 @@ def judge_reports(name, reports):
 
 def run(tier, seed):
     loader.install_shims()
-    tl = trees.all_trees(tier) + collision_trees()
+    # the directory-reference matrix ("ref:*" trees) is C18's: whether such a package imports completely at all
+    tl = [t for t in trees.all_trees(tier) if not t[0].startswith("ref:")] + collision_trees()
     res = par.pmap(run_tree, [(n, f, nf, tier) for n, f, nf in tl])
     violations, total, names_checked = [], 0, 0
     for name, nfirst, errs, reports in res:
